@@ -326,6 +326,17 @@ def falsy_domain_zero(fn, mod=None):
             ordinary[x.id] = 'it is compared with .%s, and %s 0 is an ordinary %s' % (y.attr, y.attr, y.attr)
           elif x.id in optional and (dotted(y) or '').split('.')[-1] in EVENT_CODE_NAMES:
             ordinary[x.id] = 'it is compared with %s, so it is a melody event, and pitch 0 is an ordinary event' % norm_text(y)
+  # `x or NO_EVENT`: the fallback is a melody event code, so x is a melody event (or None)
+  for b in ast.walk(fn):
+    if isinstance(b, ast.BoolOp) and isinstance(b.op, ast.Or) and len(b.values) == 2 and isinstance(b.values[0], ast.Name) and b.values[0].id in optional and \
+        (dotted(b.values[1]) or '').split('.')[-1] in EVENT_CODE_NAMES:
+      ordinary.setdefault(b.values[0].id, 'its fallback is %s, so it is a melody event, and pitch 0 is an ordinary event' % norm_text(b.values[1]))
+  # the same without a name: `(events[-d] if ... else None) or NO_EVENT`
+  for b in ast.walk(fn):
+    if isinstance(b, ast.BoolOp) and isinstance(b.op, ast.Or) and len(b.values) == 2 and isinstance(b.values[0], ast.IfExp) and \
+        any(isinstance(x, ast.Constant) and x.value is None for x in (b.values[0].body, b.values[0].orelse)) and (dotted(b.values[1]) or '').split('.')[-1] in EVENT_CODE_NAMES:
+      out.append(Site('falsy-domain-zero', b, BAD, '%s tests the truth of an optional melody event (None stands for "no such event", the fallback is %s): pitch 0 is an ordinary event and is '
+                      'replaced by the fallback too' % (norm_text(b)[:70], norm_text(b.values[1]))))
   pm = U.parents(fn)
   for n in ast.walk(fn):
     if not (isinstance(n, ast.Name) and isinstance(n.ctx, ast.Load) and n.id in ordinary):
@@ -335,6 +346,8 @@ def falsy_domain_zero(fn, mod=None):
         (isinstance(par, (ast.If, ast.While, ast.IfExp)) and par.test is n)
     if isinstance(par, ast.BoolOp) and par.values[-1] is n and not isinstance(pm.get(id(par)), (ast.If, ast.While, ast.IfExp, ast.UnaryOp, ast.BoolOp, ast.comprehension)):
       tested = False      # `x or y` / `c and x` as a value: the last operand is returned, not tested
+    if isinstance(par, ast.BoolOp) and isinstance(par.op, ast.Or) and par.values[0] is n and len(par.values) == 2:
+      tested = True       # `x or fallback`: x is tested whatever is done with the result
     if isinstance(par, ast.comprehension) and any(f is n for f in par.ifs):
       tested = True
     # `x or 0` maps None to 0 and 0 to 0: the value 0 is not lost
@@ -585,6 +598,9 @@ def wrapper_defaults(fi):
 
 # --------------------------------------------------------------------------------------------------------- self examples
 SELF_EXAMPLES = [
+    ('falsy-domain-zero', 'def f(events, d):\n  return (events[-d] if len(events) >= d else None) or MELODY_NO_EVENT\n', BAD),
+    ('falsy-domain-zero', 'def f(events, d):\n  repeated = events[-d] if len(events) >= d else None\n  return repeated or MELODY_NO_EVENT\n', BAD),
+    ('falsy-domain-zero', 'def f(events, d):\n  repeated = events[-d] if len(events) >= d else None\n  return MELODY_NO_EVENT if repeated is None else repeated\n', None),
     ('shadowed-literal-branch', "def f(s):\n  if s.upper().startswith('C'):\n    return 4\n  elif s.upper() == 'C|':\n    return 2\n  elif s.lower() == 'none':\n    return 0\n", BAD),
     ('shadowed-literal-branch', "def f(s):\n  if s.upper() == 'C':\n    return 4\n  elif s.upper() == 'C|':\n    return 2\n  elif s.lower() == 'none':\n    return 0\n", OK),
     ('misaligned-index', 'def f(roots):\n  cands = [g(r) for r in roots]\n  named = [c for c in cands if c is not None]\n  sizes = [len(c) for c in named]\n  i = sizes.index(max(sizes))\n  return roots[i], named[i]\n', BAD),
